@@ -865,7 +865,15 @@ def gen_server_liveness(rng):
     for _ in range(max(queued.values()) + 1):      # drain: the kernel takes >= 1 byte per service
         passes.append({"tx": [], "hs": [], "io": [[i, {"recvs": [block_ans(kind, rng.randrange(2))],
                                                        "send": ["acc", rng.randint(1, 4)]}] for i in ids]})
-    return {"scene": "server", "tls": tls, "ix0": ix0, "cx0": cx0, "passes": passes}
+    case = {"scene": "server", "tls": tls, "ix0": ix0, "cx0": cx0, "passes": passes}
+    if rng.random() < 0.6:
+        case["wl"] = True              # WireLog given to the SERVER
+    if rng.random() < 0.7:
+        if tls:                        # every connection accepted by the server itself, handshake completing in pass 0
+            case["ix0"], case["cx0"] = [], list(ids)
+            passes[0]["hs"] = [[i, ["done"]] for i in ids]
+        case["accept"] = True
+    return case
 
 
 def server_liveness_why(case, obs):
@@ -902,7 +910,8 @@ def server_liveness(ctx, n):
     for _ in range(n):
         case = gen_server_liveness(rng)
         try:
-            why = server_liveness_why(case, c10.run_server(case))
+            obs = c10.run_server(case)
+            why = server_liveness_why(case, obs) or c10.oracle(case, obs)    # + configuration handed down, server wire log exact
         except Exception as ex:
             why = f"harness escape {type(ex).__name__}: {ex}"
         if why and bad < 3:
@@ -911,8 +920,31 @@ def server_liveness(ctx, n):
     return {"server_liveness_scenes": n, "server_liveness_failures": bad}
 
 
+def static_params():
+    """Extra evidence only (the deciding checks run the code): every keyword Server.serviceAxes passes to Remoter is
+    also passed, with the same expression, by ServerTls.serviceAxes to RemoterTls."""
+    import ast, inspect, textwrap
+    from hio.core.tcp import serving
+
+    def kws(fn, callee):
+        tree = ast.parse(textwrap.dedent(inspect.getsource(fn)))
+        for node in ast.walk(tree):
+            if isinstance(node, ast.Call) and getattr(node.func, "id", None) == callee:
+                return {k.arg: ast.unparse(k.value) for k in node.keywords}
+        return None
+    plain, tls = kws(serving.Server.serviceAxes, "Remoter"), kws(serving.ServerTls.serviceAxes, "RemoterTls")
+    if plain is None or tls is None:
+        return ["constructor call not found"]
+    return [f"{k}={v}" for k, v in plain.items() if tls.get(k) != v]
+
+
 def extra(tier, ctx):
     out = server_liveness(ctx, 200 if tier != "thorough" else 2000)
+    missing = static_params()
+    out["static_serviceAxes_params_missing_in_tls"] = missing
+    if missing:
+        ctx.violations.append({"kind": "static", "no_input": True, "case": None,
+                               "why": f"ServerTls.serviceAxes does not pass {missing} to RemoterTls although Server.serviceAxes passes it to Remoter"})
     if tier != "thorough":
         return out
     out["soak"] = []
